@@ -153,6 +153,8 @@ class Evaluator(object):
                 return a ^ b
             if isinstance(n.op, ast.FloorDiv):
                 return a // b
+            if isinstance(n.op, ast.Div) and isinstance(a, int) and isinstance(b, int) and b != 0:
+                return a // b if a % b == 0 else a / b
             if isinstance(n.op, ast.Pow) and isinstance(a, int) and isinstance(b, int) and 0 <= b < 256:
                 return a ** b
         except Exception as e:
